@@ -53,7 +53,7 @@ fn eval(f: &[&str]) -> String {
     match f[0] {
         "add" => sd(d(f[1], f[2]) + d(f[3], f[4])),
         "sub" => sd(d(f[1], f[2]) - d(f[3], f[4])),
-        "mul" => sd(d(f[1], f[2]) * d(f[3], f[4])),
+        "mul" => { RoundingMode::set_default(mode(f[5])); sd(d(f[1], f[2]) * d(f[3], f[4])) }
         "div" => { RoundingMode::set_default(mode(f[5])); sd(d(f[1], f[2]) / d(f[3], f[4])) }
         "rem" => sd(d(f[1], f[2]) % d(f[3], f[4])),
         "checked_add" => so(d(f[1], f[2]).checked_add(d(f[3], f[4]))),
@@ -142,9 +142,9 @@ def gen_cases(rnd, n, ops):
     for _ in range(n):
         x, p, y, q = coeffs(rnd), scale(rnd), coeffs(rnd), scale(rnd)
         md = rnd.randrange(8)
-        for op in ('add', 'sub', 'mul', 'rem', 'checked_add', 'checked_sub', 'checked_rem', 'cmp', 'eq'):
+        for op in ('add', 'sub', 'rem', 'checked_add', 'checked_sub', 'checked_rem', 'cmp', 'eq'):
             add(op, x, p, y, q)
-        for op in ('div', 'checked_mul', 'checked_div', 'quantize'):
+        for op in ('mul', 'div', 'checked_mul', 'checked_div'):        # quantize is a generic two-call forwarder (decided by shape in C04): not interpreted here
             add(op, x, p, y, q, md)
         nn = rnd.choice([0, 1, 2, 9, 17, 18, 19, rnd.randint(0, 18)])
         add('mul_rounded', x, p, y, q, nn, md)
@@ -249,7 +249,11 @@ def interp_case(db, case):
               'checked_sub': (T_CSUB, 'checked_sub'), 'checked_mul': (T_CMUL, 'checked_mul'), 'checked_div': (T_CDIV, 'checked_div'), 'checked_rem': (T_CREM, 'checked_rem'),
               'mul_rounded': (T_MULR, 'mul_rounded'), 'div_rounded': (T_DIVR, 'div_rounded'), 'quantize': ('fpdec::quantize::Quantize', 'quantize'),
               'cmp': (c08.T_PORD, 'partial_cmp'), 'eq': (c08.T_PEQ, 'eq')}[op]
-        fn = find_root(db, tr[0], DD, tr[1])
+        if op == 'quantize':
+            c = [f for f in db.fns.values() if f['impl'] and f['impl']['trait'] == 'fpdec::quantize::Quantize' and f['name'] == 'quantize']
+            fn = c[0] if len(c) == 1 else None
+        else:
+            fn = find_root(db, tr[0], DD, tr[1])
         byref = op in ('cmp', 'eq')
         kind = 'dd'
         extra = a[4:]
@@ -298,6 +302,7 @@ def interp_case(db, case):
     if kind == 's':
         opts.byte_positions = True
     I = Interp(db, opts)
+    I.MAX_UNROLL = 10 ** 6          # concrete inputs: every loop simply runs
     st = I.new_state()
     st.decomp_depth = 2
 
